@@ -150,10 +150,45 @@ def grep_forbidden(LEAN):
     return bad
 
 
-def run_harness(ROOT, GOENV, scn, seed, n, flt=None, extra=None, timeout=1800):
+def parse_race_reports(text, repo):
+    """Go race detector reports: for each, the innermost non-runtime frame of both accesses."""
+    reports = []
+    for blk in text.split("=================="):
+        if "WARNING: DATA RACE" not in blk:
+            continue
+        sides = []
+        cur = None
+        lines = blk.splitlines()
+        for k, ln in enumerate(lines):
+            if re.match(r"^(Read|Write|Previous read|Previous write|Atomic read|Atomic write|Previous atomic \w+) at ", ln.strip()):
+                cur = {"what": ln.strip().split(" at ")[0], "frames": []}
+                sides.append(cur)
+                continue
+            if ln.startswith("Goroutine ") or not ln.strip():
+                if ln.startswith("Goroutine "):
+                    cur = None
+                continue
+            if cur is not None and ln.startswith("  ") and not ln.startswith("      "):
+                fn = ln.strip()
+                loc = lines[k + 1].strip().split(" +")[0] if k + 1 < len(lines) else ""
+                cur["frames"].append((fn, loc))
+        tops = []
+        for sd in sides[:2]:
+            top = next(((fn, loc) for fn, loc in sd["frames"]
+                        if not fn.startswith(("runtime.", "sync.", "sync/atomic.", "internal/race."))), ("?", "?"))
+            tops.append({"what": sd["what"], "fn": top[0], "at": top[1]})
+        if len(tops) == 2:
+            own = [t["at"].startswith(repo.rstrip("/") + "/") for t in tops]
+            reports.append({"sides": tops, "gengine_both": all(own), "gengine_any": any(own),
+                            "text": blk.strip()[:2500]})
+    return reports
+
+
+def run_harness(ROOT, GOENV, scn, seed, n, flt=None, extra=None, timeout=1800, race_out=None, repo="/repo"):
     """Run the harness for `n` cases, restarting after a crash.  Returns list of cases
-    (dict); a crashed case gets obs.outcome = 'crash'."""
-    hb = os.path.join(ROOT, "harness", "harness")
+    (dict); a crashed case gets obs.outcome = 'crash'.  With race_out (a list) the binary built
+    with the race detector is used and its reports are appended to race_out."""
+    hb = os.path.join(ROOT, "harness", "harness_race" if race_out is not None else "harness")
     cases = []
     start = 0
     crashes = 0
@@ -165,6 +200,8 @@ def run_harness(ROOT, GOENV, scn, seed, n, flt=None, extra=None, timeout=1800):
         if extra:
             cmd += extra
         env = dict(GOENV, GOMEMLIMIT="4GiB")
+        if race_out is not None:
+            env["GORACE"] = "halt_on_error=0"
         p = subprocess.Popen(cmd, stdout=subprocess.PIPE, stderr=subprocess.PIPE, env=env)
         pending = None
         last_i = start - 1
@@ -173,6 +210,8 @@ def run_harness(ROOT, GOENV, scn, seed, n, flt=None, extra=None, timeout=1800):
         except subprocess.TimeoutExpired:
             p.kill()
             out, err = p.communicate()
+        if race_out is not None:
+            race_out.extend(parse_race_reports(err.decode("utf-8", "replace"), repo))
         for line in out.decode("utf-8", "replace").splitlines():
             if line.startswith("#begin "):
                 try:
@@ -301,7 +340,31 @@ def check(ROOT, REPO, LEAN, GOENV, pid, prop, tier, seed):
             boost = 3 if (broken or gen_changed or stale) else 1
             # corpus first
             corpus_dir = os.path.join(ROOT, "corpus")
-            cases = run_harness(ROOT, GOENV, sc["scn"], seed, n * boost, sc.get("filter"), sc.get("extra"))
+            race_reports = [] if sc.get("race") else None
+            if race_reports is not None:
+                rrc, rout = sh(["go", "build", "-race", "-tags", "verif", "-o", "harness_race", "."],
+                               cwd=os.path.join(ROOT, "harness"), env=GOENV, timeout=1200)
+                if rrc != 0:
+                    broken.append("tool:harness_race build: " + rout[-800:])
+                    continue
+            cases = run_harness(ROOT, GOENV, sc["scn"], seed, n * boost, sc.get("filter"), sc.get("extra"),
+                                race_out=race_reports, repo=REPO)
+            if race_reports:
+                seen_r = set()
+                for rp in race_reports:
+                    key = tuple(sorted((t["fn"], t["at"]) for t in rp["sides"]))
+                    if key in seen_r or not rp["gengine_any"]:
+                        continue
+                    seen_r.add(key)
+                    stats["hist"]["race-report"] = stats["hist"].get("race-report", 0) + 1
+                    issues.append({"scn": sc["scn"], "aspect": "race", "method": sc.get("filter"),
+                                   "kind": "impl-vs-spec" if rp["gengine_both"] else "impl-vs-model",
+                                   "detail": "data race reported by the Go race detector between %s %s (%s) and %s %s (%s) while running scenario %s/%s"
+                                             % (rp["sides"][0]["what"], rp["sides"][0]["fn"], rp["sides"][0]["at"],
+                                                rp["sides"][1]["what"], rp["sides"][1]["fn"], rp["sides"][1]["at"], sc["scn"], sc.get("filter")),
+                                   "case": {"scn": "race", "scenario": sc["scn"], "filter": sc.get("filter"), "seed": seed, "n": n * boost,
+                                            "report": rp["text"]},
+                                   "drv": None})
             outs, drc, derr = run_driver(LEAN, cases)
             if drc != 0:
                 broken.append("driver rc=%d %s" % (drc, derr[-500:]))
@@ -429,6 +492,17 @@ def replay(ROOT, REPO, LEAN, GOENV, path):
         return 1
     with Lock(ROOT):
         info = build_tools(ROOT, REPO, LEAN, GOENV, ["GV"])
+    if case.get("scn") == "race":
+        sh(["go", "build", "-race", "-tags", "verif", "-o", "harness_race", "."], cwd=os.path.join(ROOT, "harness"), env=GOENV, timeout=1200)
+        reports = []
+        run_harness(ROOT, GOENV, case["scenario"], case.get("seed", 1), case.get("n", 50), case.get("filter"), None,
+                    race_out=reports, repo=REPO)
+        own = [r for r in reports if r["gengine_any"]]
+        print("race detector reports involving gengine source: %d (of %d)" % (len(own), len(reports)))
+        for r in own[:5]:
+            print(json.dumps(r["sides"]))
+            print(r["text"][:1500])
+        return 1 if own else 0
     hb = os.path.join(ROOT, "harness", "harness")
     p = subprocess.run([hb, "-scn", case["scn"], "-replay", path, "-seed", str(payload.get("seed", 1))],
                        stdout=subprocess.PIPE, stderr=subprocess.PIPE, env=GOENV)
